@@ -172,6 +172,7 @@ func (a *appProc) tasksOfNewJob(pipeline string) (string, int) {
 }
 
 type appxResult struct {
+	Caps            []string
 	Cases, Distinct int
 	Viol            []Violation
 	Samples         []string
@@ -316,6 +317,10 @@ func runAppxHistories() appxResult {
 			res.Cases++
 			res.Distinct++
 			hs := strings.Join(h[:i+1], " -> ")
+			if got == "timeout" {
+				res.Caps = append(res.Caps, "reload history "+hs+": no reload log line within 5s")
+				break
+			}
 			if got != "changed" {
 				res.add("C16", "reload-dropped:"+histClass(h[:i+1]), fmt.Sprintf("reload history %s: the last reload was classified as %q although the files changed", hs, got))
 				res.add("C17", "reload-dropped:"+histClass(h[:i+1]), fmt.Sprintf("reload history %s: the edit was ignored by the reload (%q)", hs, got))
@@ -399,6 +404,10 @@ func runAppxFieldEdits(part, parts int) appxResult {
 		}
 		if want != "unchanged" {
 			res.Distinct++
+		}
+		if got == "timeout" {
+			res.Caps = append(res.Caps, "edit "+what+": no reload log line within 5s")
+			return
 		}
 		if got != want {
 			res.add("C17", fmt.Sprintf("reload-gate:%s:%s-instead-of-%s", strings.SplitN(what, "=", 2)[0], got, want), fmt.Sprintf("edit %s followed by a reload: classified as %q, expected %q", what, got, want))
@@ -492,8 +501,8 @@ func runAppxSignals() appxResult {
 			var exitErr error
 			select {
 			case exitErr = <-a.exited:
-			case <-time.After(20 * time.Second):
-				res.add("C11", "binary-does-not-exit:"+sig.String(), fmt.Sprintf("state %s: prunner did not exit within 20s after %v", state, sig))
+			case <-time.After(90 * time.Second):
+				res.add("C11", "binary-does-not-exit:"+sig.String(), fmt.Sprintf("state %s: prunner did not exit within 90s after %v", state, sig))
 				a.cmd.Process.Kill()
 			}
 			took := time.Since(t0)
@@ -623,6 +632,10 @@ func runAppxUnit(u Unit) UnitResult {
 	res.Samples = r.Samples
 	for _, v := range r.Viol {
 		res.Viol = append(res.Viol, FoundViolation{Violation: v, Scenario: u.Name})
+	}
+	if len(r.Caps) > 0 {
+		res.Exhaustive = false
+		res.Caps = append(res.Caps, r.Caps...)
 	}
 	return res
 }
